@@ -54,6 +54,15 @@ def cases():
                 if f in ("view", "viewvar") and t[0] == "Bit":
                     continue
                 out.append({"src": list(s), "tgt": list(t), "form": f})
+    # the SOURCE taken through a typed view: of an input port, of a signal / variable constructed inside the process from
+    # the port (a locally constructed object is an alias in the emitted code; the view's type decides the conversion)
+    for s in T:
+        if s[0] == "Bit":
+            continue
+        for t in T:
+            for f in ("next", "var"):
+                for sf in ("viewport", "localsig", "localvar"):
+                    out.append({"src": list(s), "tgt": list(t), "form": f, "sform": sf})
     for t in T:
         for lit in ("int:0", "int:1", "int:5", "int:-1", "int:-3", "int:max", "int:max+1", "int:min", "int:min-1", "Null", "Full", "True", "str"):
             for f in LIT_FORMS:
@@ -150,7 +159,17 @@ def render_src(c):
     if f == "port":
         H += ["class Sub(cohdl.Entity):", f"    i = Port.input({tstr(t)})", f"    x = Port.output({tstr(t)})", "    def architecture(self):", "        @std.concurrent", "        def logic():", "            self.x <<= self.i", ""]
     H += ["class E(cohdl.Entity):", "    clk = Port.input(Bit)", "    c = Port.input(Bit)"]
-    if not lit:
+    sf = c.get("sform")
+    pre = []
+    if sf:
+        root = (VIEW_ROOT[s[0]], s[1])
+        H.append(f"    s = Port.input({tstr(root)})")
+        if sf == "viewport":
+            src = f"self.s.{VIEW_ATTR[s[0]]}"
+        else:
+            pre = [f"    x = {'Signal' if sf == 'localsig' else 'Variable'}[{tstr(root)}](self.s)"]
+            src = f"x.{VIEW_ATTR[s[0]]}"
+    elif not lit:
         H.append(f"    s = Port.input({tstr(s)})")
     H.append(f"    t0 = Port.input({tstr(t)})")
     wt = W(t)
@@ -166,9 +185,9 @@ def render_src(c):
     if f == "assign":
         B = ["@std.concurrent", "def p():", f"    self.o <<= {src}"]
     elif f == "next":
-        B = [clk, "def p():", f"    self.o.next = {src}"]
+        B = [clk, "def p():"] + pre + [f"    self.o.next = {src}"]
     elif f == "var":
-        B = [f"v = Variable[{tstr(t)}](Null)", clk, "def p():", "    nonlocal v", f"    v @= {src}", "    self.o <<= v"]
+        B = [f"v = Variable[{tstr(t)}](Null)", clk, "def p():", "    nonlocal v"] + pre + [f"    v @= {src}", "    self.o <<= v"]
     elif f == "value":
         B = [f"v = Variable[{tstr(t)}](Null)", clk, "def p():", f"    v.value = {src}", "    self.o <<= v"]
     elif f == "push":
@@ -358,7 +377,7 @@ def finding_key(r):
         rel = "equal" if W(tuple(a)) == W(tuple(b)) else ("narrower" if W(tuple(a)) < W(tuple(b)) else "wider")
         return f"{a[0]}->{b[0]}:{rel}-source"
 
-    return f"C05:{r.get('vclass')}:{c.get('form')}:{cls(s, t)}"
+    return f"C05:{r.get('vclass')}:{c.get('form')}:{cls(s, t)}" + (":" + c["sform"] if c.get("sform") else "")
 
 
 ASSUMPTIONS = [
